@@ -232,10 +232,24 @@ def r4_follow_last_only(ctx):
          out.append(violated("C07.R4", "open_follow:parent-of-same-split", t.where(), "parent directory and followed name do not come from the same split")))
     # trailing None base -> InvalidArgument ; non-link targets go through the no-follow open
     ok_none = False
-    for t in b.calls("std::option::Option::<T>::ok_or_else"):
+    for t in b.calls("std::option::Option::<T>::ok_or_else", "std::option::Option::<T>::ok_or"):
         r = result_edges(b, t)
         if r and sinks and sinks[0].bb not in cfg.reachable(cfg.entry, cut_edges=[e.key() for e in r["all_ok"]]):
             ok_none = True
+    # ... or an explicit match / if-let on the Option half of the split
+    for blk in b.blocks:
+        if blk.cleanup or blk.term.kind != "switch":
+            continue
+        for i, st in enumerate(blk.stmts):
+            if st.kind == "assign" and st.rv["k"] == "discr":
+                pl = Place(st.rv["p"])
+                if "std::option::Option<&" not in b.local_tys[pl.local]:
+                    continue
+                o = T.origins(b, blk.idx, i, pl)
+                if o and all(x.kind == "call" and x.term.callee == "utils::path::path_split" and tuple(x.fpath[:2]) == ("0", "1") for x in o):
+                    some = [e for e in cfg.succ.get(blk.idx, []) if e.label == ("sw", 1)]
+                    if some and sinks and sinks[0].bb not in cfg.reachable(cfg.entry, cut_edges=[e.key() for e in some]):
+                        ok_none = True
     (out.append(holds("C07.R4", "open_follow:none-base", b.where(), "missing final component -> error before the following open")) if ok_none else
      out.append(violated("C07.R4", "open_follow:none-base", b.where(), "following open reachable without a final component")))
     # fallback for non-links uses self.open (forced O_NOFOLLOW): when the readlink probe fails, the following open
